@@ -329,7 +329,11 @@ def rerun_case(stream, header, op_lines, keys, tag, want=None):
         f.write(header + "\n")
         for l in op_lines:
             f.write(l + "\n")
-    rc, txt, out, res = run_impl(stream, p, "s", timeout=600)
+    os.environ["VERIF_OP_TIMEOUT"] = "15"  # a wedged candidate is given up quickly while shrinking
+    try:
+        rc, txt, out, res = run_impl(stream, p, "s", timeout=600)
+    finally:
+        os.environ.pop("VERIF_OP_TIMEOUT", None)
     if rc != 0:
         # while shrinking towards a particular failure, a candidate that merely crashes the harness (e.g. an op
         # that lost the op which initialises its subject) is not the same failure
@@ -356,12 +360,13 @@ def rerun_case(stream, header, op_lines, keys, tag, want=None):
     return differs, impl, model, resolved
 
 
-def ddmin(stream, header, op_lines, keys, tag, budget=200, want=None):
-    """delta-debugging over the op lines of one failing case"""
+def ddmin(stream, header, op_lines, keys, tag, budget=200, want=None, wall=420):
+    """delta-debugging over the op lines of one failing case (bounded in runs and in wall-clock time)"""
     cur = list(op_lines)
     n = 2
     runs = 0
-    while len(cur) >= 2 and runs < budget:
+    t0 = time.time()
+    while len(cur) >= 2 and runs < budget and time.time() - t0 < wall:
         chunk = max(1, len(cur) // n)
         reduced = False
         for i in range(0, len(cur), chunk):
@@ -369,6 +374,8 @@ def ddmin(stream, header, op_lines, keys, tag, budget=200, want=None):
             if not cand:
                 continue
             runs += 1
+            if time.time() - t0 >= wall:
+                break
             bad, *_ = rerun_case(stream, header, cand, keys, tag, want)
             if bad:
                 cur = cand
@@ -468,6 +475,8 @@ def run_stream(prop_id, cfg, scfg, seed, tier, log, stats):
             if len(st["samples"]) < 3 and ci < len(op_cases) and (ci % 97 == 5 or len(cases) < 6):
                 st["samples"].append({"ops": op_cases[ci][1][:12], "model_out": outs[:12]})
         if crashed:
+            # the crash (or the watchdog's exit on a wedged op) explains a short output: one report, not two
+            failures = [f for f in failures if not f[2][0].startswith("#length")]
             failures.append((len(split_cases(impl)) - 1, len(impl), ["#crash"]))
         # one report per distinct failure signature (set of differing fields), first case of each
         seen_sig = set()
